@@ -91,3 +91,29 @@ where
     rt.shutdown_timeout(Duration::from_secs(10));
     res
 }
+
+/// For futures that are not `Send` (the async record writers hold a `&dyn Record` across an await): the future is
+/// driven by `block_on` on the case thread in both flavours; on the multi-thread runtime the blocking pool and the
+/// wake-ups still come from other threads.
+pub fn run_local<T, F>(flavor: Flavor, fut: F) -> Result<T, RunErr>
+where
+    F: Future<Output = T>,
+{
+    let limit = Duration::from_secs(timeout_s());
+    let rt = match flavor {
+        Flavor::Ct => tokio::runtime::Builder::new_current_thread().enable_time().build(),
+        Flavor::Mt4 => tokio::runtime::Builder::new_multi_thread().worker_threads(4).enable_time().build(),
+    };
+    let rt = match rt {
+        Ok(rt) => rt,
+        Err(e) => return Err(RunErr::Runtime(format!("cannot build runtime: {e}"))),
+    };
+    let res = match guard::catch(|| rt.block_on(async { tokio::time::timeout(limit, Guarded(Box::pin(fut))).await })) {
+        Err(p) => Err(RunErr::Panic(p)),
+        Ok(Err(_elapsed)) => Err(RunErr::Timeout),
+        Ok(Ok(Err(p))) => Err(RunErr::Panic(p)),
+        Ok(Ok(Ok(v))) => Ok(v),
+    };
+    rt.shutdown_timeout(Duration::from_secs(10));
+    res
+}
